@@ -74,6 +74,8 @@ type TV struct {
 // FnCtx: everything for one top-level function under verification.
 type FnCtx struct {
 	eng      *Engine
+	rgMode    bool              // rely/guarantee pass: interference before every sync.Map step
+	rgOnly    bool
 	compLabel map[string]string // heap component -> obligation label (field names)
 	top      *ssa.Function
 	key      string
